@@ -52,6 +52,7 @@ type ProgResult struct {
 	FuncNames []string
 	CaseFn    []int
 	CaseIn    []string
+	CaseExp   []string // what the compiled program showed (Gallina expectation)
 	VText     string
 	Kinds     map[string]map[string]int // form -> kind -> count
 	Unsupp    map[string]int
@@ -267,6 +268,8 @@ func (pd *pending) finish(output string) {
 			ins = append(ins, strings.TrimSpace(in.Setup))
 		}
 		res.CaseIn = append(res.CaseIn, strings.Join(ins, "; "))
+		exp := cases[i].Coq()
+		res.CaseExp = append(res.CaseExp, exp[strings.Index(exp, "(mkExpect"):])
 	}
 	vt.WriteString("].\n\n")
 	for _, fm := range forms {
